@@ -390,7 +390,7 @@ pub fn mutants(c: &Corpus, tier: &str) -> Vec<String> {
             }
             if li % 5 == 0 && i % 4 == 0 { let mut t = toks.clone(); t.insert(i, toks[i].clone()); push(t, &mut out); }
             // a name gets a qualifier (`x` -> `zq . x`): one more identifier the statement has to keep
-            if plain_ident[i] && (li + i) % 2 == 0 {
+            if plain_ident[i] && (toks.len() <= 14 || (li + i) % 2 == 0) {
                 let mut t = toks.clone(); t.insert(i, ".".to_string()); t.insert(i, "zq".to_string()); push(t, &mut out);
             }
             // a literal swapped for a keyword that can stand in its place somewhere in the grammar
